@@ -94,5 +94,36 @@ META = {
   "note": "Trusted: dependency crates; panic catalogue. Not decided: value round trips.",
   "design_ref": "DESIGN.md §3 C17",
  },
+
+ "C13": {
+  "technique": "static analysis: writer/reader field coverage by may-depend analysis over MIR aggregates and field stores; structural rules for generated-fact reinsertion, block reloading (index, third-party table), origin encoding tables, Block::translate, builder refusals",
+  "text": "Decides structural necessary conditions of snapshot fidelity for all authorizers: each field of the snapshot messages is written from, and read back into, the matching piece of state (3 limits, execution time, iterations, symbols, keys, blocks, authorizer block, policies, generated facts per origin with usize::MAX <-> Authorizer), every generated fact is re-inserted, blocks are reloaded with their index and third-party blocks against the snapshot table, Block::translate moves facts/rules/checks/scopes into the snapshot table, the builder variant refuses snapshots with runtime state. It does not decide that restoring always succeeds or behaves identically.",
+  "note": "Trusted: rustc MIR/HIR, prost types. Not decided: behavioural equality, lossy casts.",
+  "design_ref": "DESIGN.md §3 C13",
+ },
+ "C14": {
+  "technique": "static analysis: printer/parser table agreement - format templates (extracted from the expanded AST) of every printer arm against the grammar's tag/value tables (HIR), escape-chain inversion rule, who-must-call rule for quoted strings",
+  "text": "Decides structural necessary conditions of print/parse round trips for all ASTs and strings: every site printing a string value between quotes goes through an escape helper whose replacement chain is the inverse of the parser's string grammar (backslash first); for each of the 29 binary and 5 unary operators the printed token is one the parser maps to the same variant (Binary::And/Or print `&&!`/`||!`, which parse as different code: known findings, demonstrated); keywords and the closure arrow printed by the builders are grammar literals. It does not decide precedence for op sequences that did not come from the parser.",
+  "note": "Trusted: nom combinators; format templates from the compiler's expanded AST. Not decided: precedence/parenthesisation of arbitrary op stacks, date formatting.",
+  "design_ref": "DESIGN.md §3 C14",
+ },
+ "C18": {
+  "technique": "static analysis: table rules over the expanded quote! token streams (push_ident sequences in the type-checked HIR) of every ToTokens arm, over the From<parser::X> conversions, and sibling agreement of the two parameter collectors",
+  "text": "Decides structural necessary conditions of macro/runtime equality for all sources: every variant of the 8 parser-side enums is re-emitted as the same variant of the biscuit_auth builder type with every payload interpolated, every field of the 6 structs is emitted, the runtime From conversions map each variant to itself and use every field (so both paths are the identity on AST nodes), the macro-side and runtime-side parameter collectors visit the same positions, and biscuit-quote adds items with the builder method of their kind and binds parameters with set_macro_param. It does not decide equality of resulting bytes.",
+  "note": "Trusted: quote! expansion as seen in HIR, rustc resolution.",
+  "design_ref": "DESIGN.md §3 C18",
+ },
+ "C19": {
+  "technique": "static analysis: panic-source reachability from the 53 extern \"C\" functions with zones guard discharge (null-handle idiom, exact-length tests), take/restore pairing rule over MIR CFGs, same-object rule for raw buffer lengths vs copied bytes, error-channel rules",
+  "text": "Decides structural necessary conditions of `never aborts / writes what it announces` for all call sequences: no undischarged panic source in any extern \"C\" function or helper (an abort), every builder wrapper restores the inner builder on every exit so handles never hold None, each raw output buffer is sized from the same object whose bytes are copied (or a constant valid for every key type - the P-256 public key case is a known finding, demonstrated), the sealed size query announces the sealed size, the error channel is overwritten on every failure and every null guard reports. It does not decide equality with the Rust API or caller pointer validity.",
+  "note": "Trusted: rustc MIR, panic catalogue, allow-list reasons. Not decided: result equality, raw pointer validity.",
+  "design_ref": "DESIGN.md §3 C19",
+ },
+ "C20": {
+  "technique": "static analysis: sibling-agreement table rules over the collector / substituter / constructor functions of both ASTs (recursion into every container and Op::Value, unconditional value recursion), dominance rule validate-before-push, exhaustive-loop rule for strict setters, call-graph rule (no parser reachable from value binding), panic reachability in conversions",
+  "text": "Decides structural necessary conditions of `parameters are data` for all items and values: collectors and substituters of both crates visit the same positions recursively (sets, arrays, map keys and values, terms inside expression values, closure bodies, scopes), every push into a builder is dominated by successful validation, strict setters bind every query and report unknown names, no parser function is reachable from binding or conversion (values are never re-parsed), and the only remaining `Remaining parameter` panic is the map-key case (known finding, demonstrated).",
+  "note": "Trusted: rustc HIR/MIR. Not decided: nothing beyond AST-level replacement.",
+  "design_ref": "DESIGN.md §3 C20",
+ },
 }
 NOT_APPLICABLE = {}
